@@ -249,6 +249,8 @@ def run(tier):
     ck.rule("E13.iso-chart-projection", "Trafo::Isoparam::Evaluator<degree>::prepare(cell) of the hypercube shapes, degrees 1-3, in the scenario 'every sub-entity has a chart': (a) the corners of the coefficient lattice hold the mesh vertices index_set<d,0>(cell,k) and map_point(reference vertex k) returns exactly that vertex; (b) every lattice point in the relative interior of the local sub-entity (e,i) - located through Shape's FaceIndexMapping<shape,e,0> vertex table and the corner positions, point = corner(v_0) + sum_m t_m (corner(v_2^m) - corner(v_0)) / degree, t_m = 1..degree-1 - ends as chart->project(.) with the chart taken from the chart vector of dimension e at the GLOBAL entity index_set<d,e>(cell,i) (the cell itself: at the cell index), all of its coordinates from one projection; (c) for edges the projected argument is the linear interpolation at t/degree between the two vertices of THAT edge in the edge's vertex order. A lattice point left unprojected (or projected onto a neighbour's chart) lies on the chord while the facet trafo / the neighbouring cell put it on the chart: affine functions are no longer reproduced and congruent cells get different volumes", 69)
     ck.rule("E13.is-on-ref", "InverseMappingHelper<Shape>::is_on_ref(p, tol) (the accept test of InverseMapping::unmap_point): the accepted set, extracted as a conjunction of affine inequalities in p and tol, contains the closed reference cell of Shape::ReferenceCell for every tol >= 0 (every reference vertex satisfies every inequality; the set is convex) and only grows with tol (no inequality gets tighter when tol increases); otherwise points on a facet/vertex of a cell are dropped by unmap_point", 12)
 
+    ck.rule("E13.bbox-candidates", "InverseMapping::find_candidate_cells (documented: never a false negative): the condition under which a cell is appended to the candidate list - extracted over one arbitrary iteration of the cell loop as a conjunction of inequalities in the point p and the corners lo = bbox[0], hi = bbox[1] of the cell's bounding box (path enumeration: reject-if-outside, accept-if-inside, flags, early exits alike) - accepts the CLOSED box: every inequality is satisfied, non-strictly, at all corners p_j in {lo_j, hi_j} for every lo <= hi (hence on the whole box, the inequalities are affine); a strict inequality drops the points on the faces of the bounding box, which for a box tolerance of 0 (or a point on the inflated face) are points of the cell itself", 6)
+    ck.rule("E7.interpolation-output-zeroed", "Assembly::Interpolator::project entry points: the interpolation core accumulates (`vals[dof] += node_data[j]`, one contribution per entity dimension), therefore on EVERY path from the entry to the call that hands the output vector to the core (InterpolatorWrapper / InterpolatorCore::project, also through helpers of the Interpolator) the vector is replaced by a freshly zero-filled vector (Vector(n, 0) assigned / format()); a conditional re-allocation keeps the old coefficients of a vector of matching length and the second interpolation adds onto them; all sibling overloads alike", 2)
     ck.rule("E11.functional-normalisation", "non-parametric Rannacher-Turek / Q1TBNP evaluators, _build_coeff_matrix(): every node functional row of the nodal matrix is a NORMALISED quadrature sum  (sum_k w_k m(x_k)) / (sum_k w_k): the normaliser is the sum of exactly the weights (facet / cell Jacobian determinants at the Gauss points) that multiply the integrand terms, each once; otherwise the functional of the constant is not 1 and the basis obtained by inverting the nodal matrix is not dual to the element's integral-mean functionals on cells whose facets are not parallelograms", 24)
     ck.rule("E11.derivative-dof-scaling", "Hermite-3 / Bogner-Fox-Schmit: the reference gradient of every basis function at every reference vertex v is either 0 or row d of the trafo Jacobian matrix evaluated at v (coefficients as defined by prepare()): then and only then the real-coordinate gradient J^-T grad_ref equals e_d, i.e. the function is dual to the derivative functional d/dx_d at that vertex; a scaling by the determinant / volume measure loses the sign and mixes directions", 5)
 
@@ -269,6 +271,7 @@ def run(tier):
     for fx in all_facts:
         analyse(ck, fx, tier, covered, not_covered, primary=(fx is facts))
     check_iso_projection(ck, tier, RefCell(facts))
+    check_invmap_and_interpolator(ck, tier)
 
     ck.note("covered (family/shape [lists]): " + "; ".join(covered))
     ck.note("not covered: " + ("; ".join(not_covered) if not_covered else "-"))
@@ -951,6 +954,217 @@ def orientation_by_cases(facts, fp, sh, sims, sim_dim, syms, first_of, nper, slo
                 problems.append("prepare() assigns %s only for the orientation codes %s; for the codes %s the slot keeps whatever the previously prepared cell (or the member initialiser) left: the slot table is not a function of the current cell's orientation" % (
                     slot_str(s), w, [c for c in all_codes if c not in w]))
     return problems, unknown
+
+
+INVMAP_FILES = "|".join([F("kernel/trafo/inverse_mapping.hpp"), F("kernel/assembly/interpolator.hpp"), F("kernel/util/tiny_algebra.hpp")])
+
+
+def check_invmap_and_interpolator(ck, tier):
+    try:
+        facts = featlib.extract("tu/c15_invmap.cpp", files=INVMAP_FILES)
+    except (featlib.AnalysisBroken, OSError) as e:
+        ck.incomplete("E13.bbox-candidates", "driver tu/c15_invmap.cpp: %s" % e)
+        return
+    ck.tu(facts)
+    for e in facts.errors_outside_repo():
+        ck.incomplete("E13.bbox-candidates", "driver tu/c15_invmap.cpp no longer matches the API: %s:%d %s" % (e["file"], e["line"], e["msg"]))
+    for e in facts.errors_in_repo():
+        ck.ob("E13.bbox-candidates", "E0/%s/%s" % (rel(e["file"]), re.sub(r"\d+", "N", e["msg"])[:80]), False, "front-end error %s:%d %s" % (rel(e["file"]), e["line"], e["msg"]), e["file"], e["line"])
+    check_bbox_candidates(ck, facts)
+    check_interpolation_zeroed(ck, facts)
+
+
+def check_bbox_candidates(ck, facts):
+    rule = "E13.bbox-candidates"
+    for f in sorted(facts.functions, key=lambda f: f.full):
+        m = re.search(r"ConformalMesh<FEAT::Shape::(\w+<\d>), \d>>, \w+>$", f.cls or "")
+        if f.name != "find_candidate_cells" or f.tk == "pattern" or not m or not f.cls.startswith("FEAT::Trafo::InverseMapping<"):
+            continue
+        sh = m.group(1)
+        dim = shape_dim(sh)
+        key = "find_candidate_cells/%s" % sh
+        out_d = f.params[0]["d"] if f.params else None
+
+        def model(sx, node, callee, this_loc, args, fn):
+            nm = callee.rsplit("::", 1)[-1]
+            if this_loc is not None and loc_name(this_loc).startswith("this."):
+                if nm in ("at", "operator[]") and len(args) == 1:
+                    return Loc("BOX")
+                if nm == "size":
+                    return Poly.sym("NUM_BOXES")
+            if nm in ("empty", "size"):
+                return Poly.sym("OUT_" + nm)
+            return None
+
+        def accept(node, callee, this_loc):
+            return callee.rsplit("::", 1)[-1] in ("push_back", "emplace_back") and this_loc is not None and this_loc.root == "P0"
+        px = PredEx([facts], opaque=model, accept=accept)
+        try:
+            px.run(f)
+            atoms = px.atoms()
+        except NotClosedForm as e:
+            ck.incomplete(rule, "%s: %s" % (key, e))
+            continue
+        P = [leaf_name("P1", j) for j in range(dim)]
+        LO = [leaf_name("BOX", 0, j) for j in range(dim)]
+        HI = [leaf_name("BOX", 1, j) for j in range(dim)]
+        allowed = set(P) | set(LO) | set(HI)
+        bad = [str(L) for st, L in atoms if L.degree() > 1 or not L.symbols() <= allowed]
+        if bad or not atoms or not px.accepting:
+            ck.incomplete(rule, "%s: the accept condition is not a conjunction of affine inequalities in the point and the box corners: %s" % (key, bad[:2] or "no accepting path"))
+            continue
+        problems = []
+        W = ["W%d" % j for j in range(dim)]
+        for st, L in atoms:
+            shown = "%s %s 0" % (L, ">" if st else ">=")
+            # (corners on the face the inequality talks about first: the counterexample then reads `0 > 0`)
+            order = sorted(itertools.product((0, 1), repeat=dim), key=lambda cn: sum(1 for j in range(dim) if (HI[j] in L.symbols()) != bool(cn[j])))
+            for corner in order:
+                at = {P[j]: Poly.sym(HI[j] if corner[j] else LO[j]) for j in range(dim)}
+                v = L.subs(at).subs({HI[j]: Poly.sym(LO[j]) + Poly.sym(W[j]) for j in range(dim)})     # hi = lo + w, w >= 0
+                c0 = v.t.get((), Fraction(0))
+                lin_ok = all(len(mon) == 1 and mon[0][1] == 1 and mon[0][0] in W and cf >= 0 for mon, cf in v.t.items() if mon)
+                if not lin_ok or c0 < 0 or (st and c0 <= 0):
+                    where = ", ".join("p[%d] = %s[%d]" % (j, "hi" if corner[j] else "lo", j) for j in range(dim))
+                    problems.append("the accept condition %s fails on the closed bounding box, e.g. at %s (there it reads %s %s 0 with hi = lo + W, W >= 0): points on that face of the box are not candidates" % (shown, where, v, ">" if st else ">="))
+                    break
+        ck.ob(rule, key, not problems, "; ".join(problems[:2]) if problems else "%d non-strict inequalities, all satisfied on lo <= p <= hi" % len(atoms), f.file, f.line,
+              sample={"accept": ["%s %s 0" % (L, ">" if st else ">=") for st, L in atoms][:6]})
+
+
+def check_interpolation_zeroed(ck, facts):
+    rule = "E7.interpolation-output-zeroed"
+    import norm_c16 as norm
+    by_decl = {g.d.get("decl"): g for g in facts.functions if g.tk != "pattern" and g.body is not None and g.d.get("decl") is not None}
+    # does the core accumulate?
+    accumulates = None
+    for g in facts.functions:
+        if g.tk != "pattern" and g.name == "project" and "InterpolatorCore<" in (g.cls or ""):
+            env = norm.DefEnv(g)
+            for n in g.nodes():
+                if n.get("k") in ("Assign", "OpCall") and n.get("op") in ("+=", "-=", "=") and (n.get("k") == "Assign" or len(n.get("a") or []) == 2):
+                    lhs = n.get("lhs") if n["k"] == "Assign" else n["a"][0]
+                    X = norm.elem_access(lhs, env)
+                    src = env.alias(X) if X is not None else None
+                    if src is not None and src.get("k") == "MCall" and src.get("n") == "elements":
+                        accumulates = (accumulates or False) or n.get("op") != "="
+    if accumulates is None:
+        ck.incomplete(rule, "no store into vector.elements() found in InterpolatorCore::project (interpolation core changed)")
+        return
+    if not accumulates:
+        ck.note("InterpolatorCore::project assigns (does not accumulate): no zeroing of the output required")
+
+    def is_zero(x):
+        x = norm.strip(x)
+        while x is not None and x.get("k") in ("Construct", "TempObj", "Cast") and len(x.get("a") or [x.get("e")]) == 1:
+            x = norm.strip((x.get("a") or [x.get("e")])[0])
+        if x is None:
+            return False
+        if x.get("k") == "Int":
+            return int(x.get("v", 1)) == 0
+        if x.get("k") == "Float":
+            try:
+                return float((x.get("text") or x.get("v")).rstrip("fFlL")) == 0.0
+            except ValueError:
+                return False
+        return False
+
+    def zero_vector(x, env, depth=0):
+        """expression yields a freshly zero-filled vector: Vector(n, 0) (possibly through a local / std::move)"""
+        x = env.alias(x)
+        if x is None or depth > 4:
+            return False
+        if x.get("k") in ("Construct", "TempObj"):
+            a = x.get("a") or []
+            if len(a) == 1:
+                return zero_vector(a[0], env, depth + 1)
+            return len(a) == 2 and "DenseVector" in (x.get("callee") or "") and is_zero(a[1])
+        if x.get("k") == "Ref" and x.get("dk") == "local" and env.single_def(x.get("d")) is not None:
+            return zero_vector(env.single_def(x["d"]), env, depth + 1)
+        return False
+
+    def zero_pred(g, env, d, depth):
+        marks = {}
+        for n in g.nodes():
+            k = n.get("k")
+            if k == "OpCall" and n.get("op") == "=" and len(n.get("a") or []) == 2:
+                a0 = env.alias(n["a"][0])
+                if a0 is not None and a0.get("k") == "Ref" and a0.get("d") == d and zero_vector(n["a"][1], env):
+                    marks[n.get("i")] = True
+            if k == "MCall" and n.get("n") == "format" and n.get("obj") is not None:
+                a0 = env.alias(n["obj"])
+                if a0 is not None and a0.get("k") == "Ref" and a0.get("d") == d and (not n.get("a") or is_zero(n["a"][0])):
+                    marks[n.get("i")] = True
+            if k == "Call" and depth < 3:
+                tgt = by_decl.get(n.get("cdecl"))
+                if tgt is not None and "Interpolator" in (tgt.cls or tgt.qn):
+                    for pos, a in enumerate(n.get("a") or []):
+                        a0 = env.alias(a)
+                        if a0 is not None and a0.get("k") == "Ref" and a0.get("d") == d and pos < len(tgt.params) and always_zeroes(tgt, pos, depth + 1):
+                            marks[n.get("i")] = True
+        return lambda st: marks.get(st.get("i")) is True
+
+    def always_zeroes(g, pidx, depth):
+        if g.cfg is None or depth > 3:
+            return False
+        env = norm.DefEnv(g)
+        ok, _ = g.cfg.must_pass(zero_pred(g, env, g.params[pidx]["d"], depth))
+        return ok
+
+    def check_fn(g, pidx, depth=0):
+        """-> list of problems: paths on which the vector reaches the core without having been zero-filled"""
+        if g.cfg is None or depth > 3:
+            return ["%s: not analysable" % g.name]
+        env = norm.DefEnv(g)
+        d = g.params[pidx]["d"]
+        pred = zero_pred(g, env, d, depth)
+        problems = []
+        ncore = 0
+        for n in g.nodes():
+            if n.get("k") != "Call":
+                continue
+            tgt = by_decl.get(n.get("cdecl"))
+            for pos, a in enumerate(n.get("a") or []):
+                a0 = env.alias(a)
+                if a0 is None or a0.get("k") != "Ref" or a0.get("d") != d:
+                    continue
+                is_core = (n.get("callee") or "").startswith("FEAT::Assembly::Intern::Interpolator") and (n.get("callee") or "").endswith("::project")
+                if not is_core and (tgt is None or "Interpolator" not in (tgt.cls or tgt.qn)):
+                    continue
+                ncore += 1
+                wb = g.cfg.block_of(n.get("i"))
+                if wb is None:
+                    problems.append("call at line %s not found in the CFG" % n.get("l"))
+                    continue
+                # zero-filled BEFORE this call (the call itself, if it is a zero-filling helper, is judged by recursion)
+                ok, _ = g.cfg.must_pass(lambda st, me=n.get("i"): pred(st) and st.get("i") != me, target_blocks=[wb[0]])
+                if ok:
+                    continue
+                if is_core:
+                    problems.append("%s(): on some path to the accumulating core (line %s) the output vector has not been replaced by a zero-filled vector (a vector of matching length keeps its old coefficients)" % (g.name, n.get("l")))
+                else:
+                    sub, nsub = check_fn(tgt, pos, depth + 1)
+                    problems += sub
+                    ncore += nsub - 1
+        return problems, ncore
+    seen = set()
+    for g in sorted(facts.functions, key=lambda g: g.full):
+        if g.tk == "pattern" or g.name != "project" or g.cls != "FEAT::Assembly::Interpolator" or not g.params:
+            continue
+        vt = g.type(g.params[0]["t"])
+        kind = "DenseVectorBlocked" if "DenseVectorBlocked" in vt else ("DenseVector" if "DenseVector" in vt else vt[:30])
+        key = "Interpolator::project/%s" % kind
+        if key in seen:
+            continue
+        seen.add(key)
+        if not accumulates:
+            ck.ob(rule, key, True, "core assigns, nothing to zero", g.file, g.line, trivial=True)
+            continue
+        problems, ncore = check_fn(g, 0)
+        if not problems and not ncore:
+            ck.incomplete(rule, "%s: no call handing the output vector to the interpolation core found" % key)
+            continue
+        ck.ob(rule, key, not problems, "; ".join(sorted(set(problems))[:2]) if problems else "zero-filled on every path to the accumulating core", g.file, g.line)
 
 
 ISO_FILES = "|".join([F("kernel/trafo/"), F("kernel/shape.hpp"), F("kernel/util/tiny_algebra.hpp"), F("kernel/geometry/intern/face_index_mapping.hpp"), "/verif/tu/c15_"])
